@@ -59,7 +59,7 @@ func (t *pt) String() string {
 	if t.op == "sub" {
 		extra = fmt.Sprintf(",%d,%d", t.k, t.n.Int64())
 	}
-	if t.op == "byte" || t.op == "trunc" || t.op == "quo" || t.op == "rem" {
+	if t.op == "byte" || t.op == "trunc" || t.op == "quo" || t.op == "rem" || t.op == "brw" {
 		extra = fmt.Sprintf(",%d", t.k)
 	}
 	if t.op == "ld" {
@@ -253,6 +253,27 @@ func domainFacts(terms []*pt) []Fact {
 			out = append(out, Fact{E: self}, Fact{E: self.Sub(linTerm(pOp("len", t.args[0]).String(), false))})
 		case "needexp", "asmret":
 			out = append(out, Fact{E: self}, Fact{E: linConst(1).Sub(self)})
+		case "or":
+			// at least each operand; at most 255 when every operand is a byte
+			out = append(out, Fact{E: self})
+			allBytes := true
+			for _, a := range t.args {
+				out = append(out, Fact{E: self.Sub(pl.lin(a))})
+				if a.op != "byte" {
+					allBytes = false
+				}
+			}
+			if allBytes {
+				out = append(out, Fact{E: linConst(255).Sub(self)})
+			}
+			// at most the sum of the operands (they are non-negative)
+			sum := linConst(0)
+			for _, a := range t.args {
+				sum = sum.Add(pl.lin(a))
+			}
+			out = append(out, Fact{E: sum.Sub(self)})
+		case "brw":
+			out = append(out, Fact{E: self}, Fact{E: linConst(1).Sub(self)})
 		case "rem":
 			out = append(out, Fact{E: self}, Fact{E: linConst(int64(1)<<uint(t.k) - 1).Sub(self)})
 		case "quo":
@@ -263,6 +284,8 @@ func domainFacts(terms []*pt) []Fact {
 			out = append(out, Fact{E: e}, Fact{E: e.Scale(-1)}, Fact{E: r}, Fact{E: linConst(int64(1)<<uint(t.k) - 1).Sub(r)})
 		case "byte":
 			out = append(out, Fact{E: self}, Fact{E: linConst(255).Sub(self)})
+			// the value of a string is at least each of its bytes
+			out = append(out, Fact{E: pl.lin(pVal(t.args[0])).Sub(self)})
 		case "mod", "inv":
 			out = append(out, Fact{E: self}, Fact{E: N.Sub(self).Sub(linConst(1))})
 		case "modP":
@@ -379,6 +402,10 @@ func proveP(facts []pFact, a *pt, op token.Token, b *pt) bool {
 				}
 				if t.op == "val" && !seen[t.String()] {
 					seen[t.String()] = true
+					if ProveNonNeg(linTerm(pOp("len", t.args[0]).String(), false).Scale(-1), lf) {
+						// the empty string has value 0
+						lf = append(lf, Fact{E: linTerm(t.String(), false).Scale(-1)})
+					}
 					if ProveNonNeg(linConst(31).Sub(linTerm(pOp("len", t.args[0]).String(), false)), lf) {
 						lf = append(lf, Fact{E: linTerm("B248", false).Sub(linTerm(t.String(), false)).Sub(linConst(1))})
 					} else if ProveNonNeg(linConst(32).Sub(linTerm(pOp("len", t.args[0]).String(), false)), lf) {
@@ -535,6 +562,25 @@ func (d *protoDom) binop(st *sState, x *ssa.BinOp, a, b sVal) (sVal, bool) {
 		return pInt{pAdd(ta, pNeg(tb))}, true
 	case token.MUL:
 		return pInt{pMul(ta, tb)}, true
+	case token.OR:
+		// bitwise OR of byte-sized values: an n-ary term (used by zero tests that fold all bytes of a string)
+		var parts []*pt
+		for _, t := range []*pt{ta, tb} {
+			switch {
+			case t.op == "or":
+				parts = append(parts, t.args...)
+			case t.op == "c" && t.n.Sign() == 0:
+			default:
+				parts = append(parts, t)
+			}
+		}
+		if len(parts) == 0 {
+			return sInt{new(big.Int)}, true
+		}
+		if len(parts) == 1 {
+			return pInt{parts[0]}, true
+		}
+		return pInt{&pt{op: "or", args: parts}}, true
 	case token.SHL:
 		if tb.op == "c" && tb.n.IsInt64() && tb.n.Int64() < 62 {
 			return pInt{pMul(pC(1<<uint(tb.n.Int64())), ta)}, true
